@@ -18,7 +18,7 @@ META = {
                   'reject, base demultiplexer failure, generic error, cut-off, finish) against the conservation property for all '
                   'outcome matrices of 2-3 pairs x 2 strategies, all flag combinations; the six as-coded deviations (D2, D101, '
                   'D102, D103, D104, all) are negative controls. Real code: all 28 registered strategies, paired / single end, with / '
-                  'without rejects handle, joint / per-cell sinks (real HandleLimiter), maxReadPairs, every phred 0..93, 13 '
+                  'without rejects handle, joint / per-cell sinks (real HandleLimiter), maxReadPairs, several lanes, an earlier run into the same output prefix, every phred 0..93, 13 '
                   'header classes; every run is judged by TLC.',
     'level_note': 'Trusted: TLC/SANY, CommunityModules, the driver\'s lexical projection of the output files (4-line grouping, '
                   'header split on ; and :, id token regex), stdlib gzip as reader. "Demultiplexable" is what the strategy object '
@@ -28,7 +28,8 @@ META = {
 }
 
 NEG = [('D2', ['Inv_C01_Once', 'Inv_C01_Counters']), ('D101', ['Inv_C01_WellFormed']), ('D102', ['Inv_C01_Once']),
-       ('D103', ['Inv_C01_Once']), ('D104', ['Inv_C01_Once']), ('impl', ['Inv_C01_Once', 'Inv_C01_Counters', 'Inv_C01_WellFormed'])]
+       ('D103', ['Inv_C01_Once']), ('D104', ['Inv_C01_Once']),
+       ('S_append_existing', ['Inv_C01_AtMostOnce', 'Inv_C01_Counters']), ('impl', ['Inv_C01_Once', 'Inv_C01_Counters', 'Inv_C01_WellFormed'])]
 CELL_ACTIONS_Q = ['ReadPair', 'WriteAccepted', 'RejectViaBase', 'RejectRaw', 'HandleError', 'Finish']   # per-cell configs: fewer classes
 CELL_ACTIONS_T = ['ReadPair', 'WriteAccepted', 'RejectViaBase', 'RejectRaw', 'Finish']
 
@@ -67,6 +68,12 @@ def key_fn(ev, clause):
         shape.append('yields%swritten' % {'-': '<', '+': '>', '0': '='}[sign(sum(ev['yields']) - nt)])
         if any('E' in row for row in ev['acc']):
             shape.append('error_arm')
+    if ev.get('prior'):
+        cfg += '+after_%s_into_same_prefix' % ev['prior']
+    if ev.get('lanes', 1) > 1:
+        cfg += '+lanes'
+    if clause == 'Inv_C01_NoForeign' and ev['percell']:
+        shape.append('percell')
     return '%s|%s|%s|%s' % (clause, ev['entry'], ','.join(shape)[:120] or '-', cfg)
 
 
@@ -181,6 +188,18 @@ def _selftest(c, events):
         for m in e['tgt'][0]['mates']:
             m['recs'][0]['id'] = 0
 
+    @mut('stale_records_of_an_earlier_run_left_in_sink', 'Inv_C01_NoForeign')
+    def _(e):
+        for m in e['tgt'][0]['mates']:
+            m['recs'].insert(0, dict(m['recs'][0], id=e['N'] + 1))
+            m['nlines'] += 4
+
+    @mut('records_of_an_earlier_test_run_appended_to', 'Inv_C01_AtMostOnce')
+    def _(e):
+        for m in e['tgt'][0]['mates']:
+            m['recs'].insert(0, dict(m['recs'][0]))
+            m['nlines'] += 4
+
     @mut('glued_record', 'Inv_C01_WellFormed')
     def _(e):
         e['rej'][0]['mates'][0]['nlines'] -= 1
@@ -285,6 +304,8 @@ def run(tier):
                                'pair_strategy_executions': sum(e['N'] * len(e['strategies']) for e in runs),
                                'scenarios_replayed': len([e for e in runs if 'scn' in e]),
                                'cli_runs': len([e for e in runs if e['entry'] == 'cli']),
+                               'runs_after_earlier_run_into_same_prefix': len([e for e in runs if e.get('prior')]),
+                               'runs_with_two_lanes': len([e for e in runs if e.get('lanes', 1) > 1]),
                                'oracle_outcomes_per_strategy': acc_stats,
                                'divergences': c.notes.get('DIVERGENCE', 0)})
 
